@@ -248,7 +248,8 @@ struct Run<'a> {
     /// queue time of resting orders as far as the harness can know it (for tie statistics)
     qtime: Vec<Option<u64>>,
     tied: Vec<bool>,
-    budget: [u64; 2],
+    /// traded volume logged since the last reset of the counter (harness ledger)
+    traded_ctr: u64,
     off_since: Option<usize>,
     reenabled_after_cross: bool,
     snapshot_levels: Vec<(bool, u32)>,
@@ -258,19 +259,35 @@ struct Run<'a> {
     pub feat: Features,
 }
 
-const BUDGET: u64 = u32::MAX as u64 - 1;
 
 impl<'a> Run<'a> {
     fn fail(&self, prop: &str, sig: &str, step: usize, op: &Op, msg: String) -> Failure {
         Failure::new(prop, sig, format!("step {} op {:?}: {}", step, op, msg))
     }
 
-    fn clamp_vol(&mut self, bid: bool, vol: u32, ops_left: usize) -> u32 {
-        let k = bid as usize;
-        let avail = self.budget[k].saturating_sub(ops_left as u64 + 4).max(1);
-        let v = (vol.max(1) as u64).min(avail);
-        self.budget[k] = self.budget[k].saturating_sub(v);
-        v as u32
+    /// Largest admissible volume (>= 1) for a new order / a volume increase of `vol` on side `bid`,
+    /// keeping the history inside the properties' domain: per-side resting volume < 2^32 and
+    /// cumulative traded volume (the counter since its last reset) < 2^32 at every moment.
+    /// Computed from the observed pre-state, not from a running sum of everything ever created, so
+    /// large volumes keep arriving as long as earlier ones traded away or were cancelled.
+    ///  * `own`      volume of the modified order that leaves the side first (0 for a new order)
+    ///  * `tradable` volume that will execute immediately (opposite resting volume the order's limit
+    ///               admits; 0 when trading is off or the order is only created)
+    ///  * `rests`    false for market orders (their remainder is discarded)
+    #[allow(clippy::too_many_arguments)]
+    fn clamp_vol(&mut self, pre: &Obs, bid: bool, vol: u32, own: u64, tradable: u64, rests: bool, ops_left: usize) -> u32 {
+        let lim = (u32::MAX as u64 - 1).saturating_sub(ops_left as u64 + 4);
+        let live = |side: bool| -> u64 { pre.orders.iter().filter(|o| o.bid == side && (o.status == St::Active || o.status == St::New)).map(|o| o.vol as u64).sum() };
+        let (same, opp) = (live(bid).saturating_sub(own), live(!bid));
+        let total = own + vol.max(1) as u64;
+        // resting: same + total - min(total, tradable) <= lim
+        let mut max_total = if rests { (lim + tradable).saturating_sub(same) } else { u64::MAX };
+        // counter: traded + min(same + total, opp) <= lim   (invariant under trades)
+        if self.traded_ctr + opp > lim {
+            max_total = max_total.min(lim.saturating_sub(self.traded_ctr).saturating_sub(same));
+        }
+        let t = total.min(max_total).max(own + 1).min(u32::MAX as u64 - 1);
+        (t - own) as u32
     }
 
     fn apply_all<F: Fn(&mut dyn DynBook)>(&mut self, f: F) {
@@ -328,7 +345,7 @@ pub fn run_book_case(case: &BookCase, orc: Oracles) -> (Features, Result<(), Fai
         last_queue: BTreeMap::new(),
         qtime: vec![],
         tied: vec![],
-        budget: [BUDGET, BUDGET],
+        traded_ctr: 0,
         off_since: None,
         reenabled_after_cross: false,
         snapshot_levels: vec![],
@@ -360,7 +377,7 @@ pub fn build_book(case: &BookCase) -> Box<dyn DynBook> {
         last_queue: BTreeMap::new(),
         qtime: vec![],
         tied: vec![],
-        budget: [BUDGET, BUDGET],
+        traded_ctr: 0,
         off_since: None,
         reenabled_after_cross: false,
         snapshot_levels: vec![],
@@ -450,7 +467,15 @@ impl<'a> Run<'a> {
         match op {
             Op::Create { bid, vol, trader, price } | Op::CreatePlace { bid, vol, trader, price } => {
                 let placing = matches!(op, Op::CreatePlace { .. });
-                let vol = if is_drain { *vol } else { self.clamp_vol(*bid, *vol, ops_left) };
+                let vol = if is_drain {
+                    *vol
+                } else {
+                    let tradable: u64 = match (placing && self.trading, price) {
+                        (true, Some(p)) => pre.orders.iter().filter(|o| o.status == St::Active && o.bid != *bid && if *bid { o.price <= *p } else { o.price >= *p }).map(|o| o.vol as u64).sum(),
+                        _ => 0,
+                    };
+                    self.clamp_vol(pre, *bid, *vol, 0, tradable, price.is_some(), ops_left)
+                };
                 let on_grid = price.map_or(true, |p| p % self.case.tick == 0);
                 if !on_grid {
                     self.feat.offgrid_create += 1;
@@ -578,7 +603,13 @@ impl<'a> Run<'a> {
                     } else {
                         if let Some(v) = vol {
                             // charge increases against the volume budget
-                            let v = if v > o.vol { o.vol.saturating_add(self.clamp_vol(o.bid, v - o.vol, ops_left)) } else { v.max(1) };
+                            let v = if v > o.vol {
+                                let np = price.unwrap_or(o.price);
+                                let tradable: u64 = if self.trading && np % self.case.tick == 0 { pre.orders.iter().filter(|x| x.status == St::Active && x.bid != o.bid && if o.bid { x.price <= np } else { x.price >= np }).map(|x| x.vol as u64).sum() } else { 0 };
+                                o.vol.saturating_add(self.clamp_vol(pre, o.bid, v - o.vol, o.vol as u64, tradable, true, ops_left))
+                            } else {
+                                v.max(1)
+                            };
                             vol = Some(v);
                         }
                         if price.is_none() && vol.is_none() {
@@ -656,6 +687,7 @@ impl<'a> Run<'a> {
                     m.reset_trade_vol();
                 }
                 self.reset_at = trades_before;
+                self.traded_ctr = 0;
                 self.feat.resets += 1;
             }
             Op::Reload(how) => {
@@ -729,6 +761,7 @@ impl<'a> Run<'a> {
             }
         }
         for t in new_trades {
+            self.traded_ctr += t.vol as u64;
             if t.active < self.since.len() {
                 self.since[t.active] += t.vol as u64;
                 self.fills[t.active] += 1;
